@@ -15,6 +15,7 @@ package main
 
 import (
 	"fmt"
+	"os"
 	"strconv"
 	"strings"
 	"time"
@@ -180,6 +181,16 @@ func main() {
 		return
 	}
 	t0 := time.Now()
+	if os.Getenv("C17_ONLY") == "stressdag" { // development aid
+		for i := 0; i < 200; i++ {
+			rng, sub := r.Rng.Fork()
+			stressDag(r, rng, sub, rng.Range(4, 16), 300, rng.Range(2, 5))
+			fmt.Println("stressdag", i, len(r.Findings))
+		}
+		r.Finish()
+
+		return
+	}
 	corpus(r)
 	// (3) panic matrix: exhaustive over short sequential histories
 	enumSeq(r, "sm", []string{"lock", "unlock", "rlock", "runlock"}, 4)
@@ -210,34 +221,38 @@ func main() {
 		exploreDag(r, 3, 3, 1, 4000, true)
 	}
 	tExh := time.Since(t0)
-	for i := 0; i < 5000*r.Scale/quickDiv(r); i++ {
+	for i := 0; i < 5000*r.Scale/quickDiv(r) && !giveUp(); i++ {
 		rng, sub := r.Rng.Fork()
 		randomSM(r, rng, sub)
 	}
-	for i := 0; i < 5000*r.Scale/quickDiv(r); i++ {
+	for i := 0; i < 5000*r.Scale/quickDiv(r) && !giveUp(); i++ {
 		rng, sub := r.Rng.Fork()
 		randomDag(r, rng, sub)
 	}
-	for i := 0; i < 5000*r.Scale/quickDiv(r); i++ {
+	for i := 0; i < 5000*r.Scale/quickDiv(r) && !giveUp(); i++ {
 		rng, sub := r.Rng.Fork()
 		randomWM(r, rng, sub)
 	}
 	tArr := time.Since(t0)
 	// (2) stress
-	for i := 0; i < 10*r.Scale; i++ {
+	for i := 0; i < 20*r.Scale && (i == 0 || !giveUp()); i++ {
 		rng, sub := r.Rng.Fork()
 		stressSM(r, rng, sub, rng.Range(4, 16), 400, hx.Pick(rng, []int{10, 30, 50, 90}))
 		rng, sub = r.Rng.Fork()
 		stressDag(r, rng, sub, rng.Range(4, 16), 300, rng.Range(2, 5))
 	}
 	// (4) wait stress
-	for i := 0; i < 6*r.Scale; i++ {
+	for i := 0; i < 10*r.Scale && (i == 0 || !giveUp()); i++ {
 		rng, sub := r.Rng.Fork()
 		stressCounter(r, rng, sub, rng.Range(2, 8), rng.Range(1, 4), 150)
 		rng, sub = r.Rng.Fork()
 		stressStack(r, rng, sub, rng.Range(1, 4), rng.Range(1, 6), 500)
 	}
 	fmt.Printf("c17 harness: seq %.1fs exhaustive %.1fs random arrivals %.1fs stress %.1fs\n", tSeq.Seconds(), (tExh - tSeq).Seconds(), (tArr - tExh).Seconds(), (time.Since(t0) - tArr).Seconds())
+	if giveUp() {
+		fmt.Println("c17 harness: several watchdogs expired; the remaining cases were skipped")
+		r.Extra["gave_up_after_stalls"] = stalls.Load()
+	}
 	r.Extra["timings_s"] = map[string]float64{"seq": tSeq.Seconds(), "exhaustive": (tExh - tSeq).Seconds(),
 		"random_arrivals": (tArr - tExh).Seconds(), "stress": (time.Since(t0) - tArr).Seconds()}
 	r.Finish()
